@@ -7,7 +7,7 @@ use pdatastructs::countminsketch::CountMinSketch;
 use serde_json::json;
 use std::sync::Mutex;
 
-pub const RULE: &str = "grid eps in {0.3,0.1,0.03,0.01, e/64, e/1024 (power-of-two widths), 1e-5 and 2e-5 (tables of 1.4-2.7x10^5 columns; adversarial stream, 20000 queried elements per seed)} x delta in {0.9,0.5,0.2,0.05,0.01,1e-3,1e-4} x stream in {uniform, zipf(1.1), adversarial-heavy (floor(0.9/eps) heavy hitters each just above eps*N plus a light tail that is queried), the same into a sketch reused after clear()}; per cell S independent seeded hashers (Mix; SipHash on a subset), 400-500 queried elements per seed; failure = overestimate > eps*N; verdict on the per-seed failure fractions: violated iff mean - 5*SE > delta in two independent stages (fresh seeds, 4x trials). non-trivial = (cell, seed) execution whose stream had total weight > 0 and >= 100 queried elements; distinct = (cell, seed) pairs";
+pub const RULE: &str = "grid eps in {0.95, 0.7 (w = 3, 4), 0.3,0.1,0.03,0.01, e/64, e/1024 (power-of-two widths), 1e-5 and 2e-5 (tables of 1.4-2.7x10^5 columns; adversarial stream, 20000 queried elements per seed)} x delta in {0.9,0.5,0.2,0.05,0.01,1e-3,1e-4} x stream in {uniform, zipf(1.1), adversarial-heavy (floor(0.9/eps) heavy hitters each just above eps*N plus a light tail that is queried), the same into a sketch reused after clear()}; per cell S independent seeded hashers (Mix; SipHash on a subset), 400-500 queried elements per seed; failure = overestimate > eps*N; verdict on the per-seed failure fractions: violated iff mean - 5*SE > delta in two independent stages (fresh seeds, 4x trials). non-trivial = (cell, seed) execution whose stream had total weight > 0 and >= 100 queried elements; distinct = (cell, seed) pairs";
 pub const ASSUMPTIONS: &[&str] = &[
     "the fraction is taken over (hasher seed, queried element) pairs as the property states",
     "known finding: double hashing makes two keys that agree on (h1 mod w, h2 mod w) collide in every row, so the failure fraction has a floor of about H/w^2 independent of d; cells below that floor are listed in known_findings.json with a magnitude envelope",
@@ -70,7 +70,7 @@ fn one_seed(eps: f64, delta: f64, stream: Stream, bh: CtlBuildHasher, r: &mut Fa
                 }
                 c.clear();
             }
-            let h = (0.9 / eps).floor() as u64;
+            let h = ((0.9 / eps).floor() as u64).max(1);
             let l = if eps < 1e-4 { 20_000u64 } else { 2000u64 };
             // heavy weight hw just above eps*N with N = h*hw + l
             let mut hw = ((eps * l as f64 + 1.0) / (1.0 - eps * h as f64)).ceil() as u64;
@@ -165,7 +165,8 @@ pub fn run(ctx: &Ctx) -> Report {
     // e/1024 and e/64: widths that are exact powers of two
     // 1e-5 and 2e-5: tables of more than 10^5 columns (a constructor that silently caps the table
     // size, or loses precision in ceil(e/eps), shows only there)
-    let epss = [0.3, 0.1, 0.03, 0.01, std::f64::consts::E / 1024.0, std::f64::consts::E / 64.0, 1e-5, 2e-5];
+    // 0.95 and 0.7: the narrowest tables there are (w = 3 and 4), where one unused column matters
+    let epss = [0.95, 0.7, 0.3, 0.1, 0.03, 0.01, std::f64::consts::E / 1024.0, std::f64::consts::E / 64.0, 1e-5, 2e-5];
     let deltas = [0.9, 0.5, 0.2, 0.05, 0.01, 1e-3, 1e-4];
     let mut cells = vec![];
     for &eps in &epss {
@@ -177,6 +178,9 @@ pub fn run(ctx: &Ctx) -> Report {
                 let pow2 = (eps - std::f64::consts::E / 1024.0).abs() < 1e-12 || (eps - std::f64::consts::E / 64.0).abs() < 1e-12;
                 if pow2 && (stream != Stream::Adversarial || !(delta == 0.5 || delta == 0.2 || delta == 0.05)) {
                     continue; // power-of-two widths: adversarial stream, moderate delta only
+                }
+                if eps > 0.5 && !(delta == 0.5 || delta == 0.2 || delta == 0.05) {
+                    continue; // tiny tables: moderate deltas (d = 1, 2, 3)
                 }
                 let wide = eps < 1e-4;
                 if wide && (stream != Stream::Adversarial || !((eps == 1e-5 && (delta == 0.05 || delta == 0.01)) || (eps == 2e-5 && delta == 1e-4))) {
